@@ -109,6 +109,8 @@ type World struct {
 	// FailStart / FailStop: fault keys of the components that fail.  Fault key =
 	// Canonical(node key), except processors: "processor:<id>" (all instances).
 	FailStart, FailStop map[string]bool
+	// OnStart, when set, is called at the beginning of every component Start.
+	OnStart func(key string, serial int)
 
 	mu      sync.Mutex
 	events  []Event
@@ -214,6 +216,9 @@ func (c *comp) fault(op string) error {
 }
 
 func (c *comp) Start(context.Context, component.Host) error {
+	if c.w.OnStart != nil {
+		c.w.OnStart(c.key, c.serial)
+	}
 	c.w.event("start", c.key, c.serial)
 	if c.w.FailStart[c.faultKey] {
 		return c.fault("start")
